@@ -4,6 +4,7 @@
 -/
 import PasfmtModel.Model.Mls
 import PasfmtModel.Model.Contracts
+import PasfmtModel.Proofs.MlsSim
 
 namespace Pasfmt.C12
 
@@ -73,6 +74,14 @@ theorem mls_ignored (S : Settings) (b : Bool) (t : FTok) (ind cont : Nat) (h : t
 theorem mls_other_kinds (S : Settings) (b : Bool) (t : FTok) (ind cont : Nat) (h : isMlsKind t.tok.kind = false) :
     mlsTok S b t ind cont = t.tok.content := by
   unfold mlsTok; simp [h]
+
+/-- re-indentation changes blanks only: for a literal without a dangling `E3` byte (every well-formed
+    UTF-8 text) the sequence of non-blank characters is unchanged, for the settings of every
+    configuration and every pair of counters -/
+theorem mls_only_blanks_change (cfg : Config) (content : Bytes) (ind cont : Nat) (c' : Bytes)
+    (h : mlsRewrite cfg.settings content ind cont = some c') (hnd : nd content = true) :
+    nd c' = true ∧ foldStrip c' = foldStrip content :=
+  mlsRewrite_sim cfg.settings (settings_blank cfg) content ind cont c' h hnd
 
 -- Tests (labelled as tests): a literal with LF/CR/CRLF interior endings, a short line and an
 -- over-indented line, rewritten to indentation 1 x "  " + 1 x "    " with LF.
